@@ -150,28 +150,74 @@ def real_numba_group(text, name, fr, itype, sid, ent, data, st_):
     return (A.reshape(shape) if shape else A), n
 
 
+def option_sequence(spec, built):
+    """Option sets the form is generated with, one after the other in this process (the first is always the default set)."""
+    k = spec["data_seed"] % 6
+    seq = [{}]
+    if k == 1:
+        seq.append({"table_rtol": 1e-3})
+    elif k == 2:
+        seq.append({"sum_factorization": True})
+    elif k in (3, 4):
+        args = built.form.arguments()
+        if len(args) == 2 and args[0].ufl_function_space() == args[1].ufl_function_space():
+            seq.append({"part": "diagonal"})
+            if k == 4:
+                seq.reverse()
+        else:
+            seq.append({"table_atol": 1e-5})
+    return seq
+
+
 def evaluate_form(spec, wd, real_numba=False):
+    """C and numba modules of one form, for one or two option sets generated one after the other in this process."""
+    sclean = strategies.strip_meta(spec)
+    try:
+        built = specs.build(sclean)
+    except Exception:  # noqa: BLE001
+        built = None
+    seq = option_sequence(spec, built) if built is not None and not real_numba else [{}]
+    last = None
+    for n, opts in enumerate(seq):
+        o = _evaluate_form(spec, wd, real_numba, opts, n)
+        if o.status == "violation":
+            return o
+        if opts and o.status in ("rejected", "zero-form", "inconclusive"):
+            continue  # the option does not apply to this form / the C backend rejects it as well
+        if last is None or o.status == "ok":
+            last = o
+        if not opts and o.status != "ok":
+            return o
+    if len(seq) > 1 and last is not None:
+        last.classes = list(last.classes) + ["option-sequence:" + "+".join(",".join(sorted(o_)) or "default" for o_ in seq)]
+    return last
+
+
+def _evaluate_form(spec, wd, real_numba, opts, step):
     sclean = strategies.strip_meta(spec)
     h = spec_hash(sclean)
     classes = strategies.spec_classes(spec)
     st_ = ["float64", "float64", "float32"][spec["data_seed"] % 3]
-    replay = {"kind": "form", "spec": sclean, "ufl_source": specs.to_source(sclean), "scalar_type": st_}
+    replay = {"kind": "form", "spec": sclean, "ufl_source": specs.to_source(sclean), "scalar_type": st_, "options": opts, "step": step}
+    diag = opts.get("part") == "diagonal"
+    if opts:
+        classes = classes + ["options:" + ",".join(sorted(opts))]
     sample = {"spec": sclean}
 
     def viol(kind, what):
         return Outcome("violation", case_id=h, classes=classes, key=f"{PROP}:{kind}:{h}", bucket=f"{PROP}:{kind}", what=what, replay=replay, sample=sample)
 
     try:
-        fr = formcheck.FormRunner(spec, wd, scalar_type=st_, name="c" + h)
+        fr = formcheck.FormRunner(spec, wd, scalar_type=st_, options=opts, name=f"c{h}_{step}")
         if fr.is_zero_form():
             return Outcome("zero-form", case_id=h, classes=classes)
         fr.compile()
     except (kernels.Rejected, kernels.CompileError) as e:
         return Outcome("rejected", case_id=h, classes=classes, what=str(e)[:200])
     try:
-        text, _, names = kernels.generate_code([fr.form], {"scalar_type": st_, "language": "numba"})
+        text, _, names = kernels.generate_code([fr.form], dict(opts, scalar_type=st_, language="numba"))
     except Exception as e:
-        return viol("numba-rejects", f"the C backend accepts the form but language='numba' raises {type(e).__name__}: {str(e)[:300]}")
+        return viol("numba-rejects", f"the C backend accepts the form (options {opts}) but language='numba' raises {type(e).__name__}: {str(e)[:300]}")
     try:
         ns = load_numba_module(text)
     except SyntaxError as e:
@@ -193,13 +239,13 @@ def evaluate_form(spec, wd, real_numba=False):
     for itype, sid in fr.declared_groups():
         width = 2 if itype == "interior_facet" else 1
         dims = [e.dim for e in fr.fd.argument_elements]
-        shape = tuple(width * n for n in dims)
+        shape = tuple(width * n for n in (dims[:1] if diag else dims))
         if int(np.prod(shape)) > 400:
             continue
         nent = formcheck.entity_count(cell, itype)
         data = inputs.FormData(fr.built, spec["data_seed"])
         ent = (nent - 1, 0)
-        A_c, problems, ncalled, idxs = fr.run_group(itype, sid, data, entity=ent)
+        A_c, problems, ncalled, idxs = fr.run_group(itype, sid, data, entity=ent, diagonal=diag)
         if A_c is None:
             continue
         w = inputs.pack_w(fr.form.coefficients(), fr.desc["original_coefficient_positions"], data, width)
@@ -225,7 +271,7 @@ def evaluate_form(spec, wd, real_numba=False):
         u = float(np.finfo(kernels.real_dtype(st_)).eps)
         diff = float(np.nanmax(np.abs(np.asarray(A_c).astype(np.complex128) - np.asarray(A_n).astype(np.complex128))))
         if not diff <= 2e3 * u * (scale + 0.05):
-            return viol("value", f"({itype},{sid}) entity {ent}: numba and C kernels differ by {diff:.3e} at scale {scale:.3e} ({st_})")
+            return viol("value", f"options {opts} (generation {step + 1} of this form in the process): ({itype},{sid}) entity {ent}: numba and C kernels differ by {diff:.3e} at scale {scale:.3e} ({st_})")
         if real_numba and "scipy.special.jn(" not in text and "scipy.special.yn(" not in text and not fr.complex:
             # the generated function as numba itself compiles it (cfunc, nopython), called through its C pointer
             try:
@@ -315,11 +361,11 @@ def shard(shard, nshards, n, seed, n_real=1):
     have_scipy = scipy_available()
     res.count("bessel-forms-generated" if have_scipy else "bessel-forms-excluded:scipy-not-importable")
     with scratch(f"vf-c18-{shard}-") as wd:
-        drive(strategies.forms(dict(P_FORMS, bessel=have_scipy)), lambda s: evaluate_form(s, wd), n, (PROP, seed, shard, "forms"), res, shrink_calls=30)
+        drive(strategies.forms(dict(P_FORMS, bessel=have_scipy, int_base_pow=True)), lambda s: evaluate_form(s, wd), n, (PROP, seed, shard, "forms"), res, shrink_calls=30)
         # a sample through numba's own compiler (about 5 s per kernel)
         small = dict(P_FORMS, bessel=False, max_integrals=2, cells=["interval", "triangle", "quadrilateral", "tetrahedron"])
         drive(strategies.form_specs(small), lambda s: evaluate_form(s, wd, real_numba=True), n_real, (PROP, seed, shard, "real-numba"), res, shrink_calls=4)
-        drive(strategies.expr_specs({"maxdeg": 2}), lambda s: evaluate_expr(s, wd), max(1, n // 3), (PROP, seed, shard, "exprs"), res, shrink_calls=30)
+        drive(strategies.expr_specs({"maxdeg": 2, "int_base_pow": True}), lambda s: evaluate_expr(s, wd), max(1, n // 3), (PROP, seed, shard, "exprs"), res, shrink_calls=30)
     return res
 
 
